@@ -110,7 +110,7 @@ Definition dgram_of (e : env) (i : N) (k : dkind) : env * list wbyte :=
    fails with EMSGSIZE and is reported ERR_WRITE (12) with 0 bytes *)
 Definition max_udp (v6client : bool) : Z := if v6client then 65527%Z else 65507%Z.
 
-Definition client_is_v6 (client : N) : bool := client =? 5.   (* the harness' fifth client socket is on ::1 *)
+Definition client_is_v6 (client : N) : bool := 5 <=? client.   (* the harness' fifth client socket is on ::1, the sixth on a zoned link-local address *)
 
 (* one datagram arriving at the association's socket [sock] from [src]:[sport] *)
 Definition one_reply (e : env) (st : ustate) (v6client : bool) (sock : N) (src : ip) (sport : N) (sid : N) (saltseed : N) (len seed : N)
@@ -169,7 +169,7 @@ Fixpoint run_ops (e : env) (validate : bool) (st : ustate) (i : N) (ops : list u
       let '(sent, nw, rep) := obs_of_step evs in
       let '(e2, reps) :=
         match k, sent with
-        | DHonest _ _ _ akind tport _ _ rs, Some (sock, _) => replies_of e1 st' (cip =? 4) sock akind tport i 0 rs
+        | DHonest _ _ _ akind tport _ _ rs, Some (sock, _) => replies_of e1 st' (4 <=? cip) sock akind tport i 0 rs
         | _, _ => (e1, [])
         end in
       {| d_sent := sent; d_new := nw; d_report := rep; d_replies := reps; d_removed := 0 |} :: run_ops e2 validate st' (i + 1) r
